@@ -50,29 +50,40 @@ TIERS = {
 }
 FLOORS = {
     "quick": {
-        "programs": 12000,
-        "distinct_nontrivial": 1500,
-        "calls:canonicalize_expr": 6000,
-        "evals:canonicalize_expr": 500000,
-        "calls:canonicalize_map": 600,
-        "calls:AffineTransform.from_affine_map": 1200,
-        "calls:AffineTransform.to_affine_map": 600,
-        "calls:AffineTransform.compose": 600,
-        "calls:AffineTransform.eval": 20000,
-        "calls:AccessPattern.canonicalize": 1200,
-        "calls:AccessPattern.inner_dims": 2500,
-        "calls:StridePattern.canonicalize": 1200,
-        "calls:StridePattern.print_parse": 1200,
-        "calls:pack_bitlist": 1200,
-        "calls:StreamerConfigurationAttr.print_parse": 800,
+        "programs": 30000,
+        "distinct_nontrivial": 8000,
+        "calls:canonicalize_expr": 6500,
+        "evals:canonicalize_expr": 900000,
+        "calls:canonicalize_map": 1300,
+        "calls:AffineTransform.from_affine_map": 4500,
+        "calls:AffineTransform.to_affine_map": 2000,
+        "calls:AffineTransform.compose": 2000,
+        "calls:AffineTransform.eval": 300000,
+        "calls:AccessPattern.canonicalize": 2000,
+        "calls:AccessPattern.inner_dims": 6000,
+        "calls:StridePattern.canonicalize": 2000,
+        "calls:StridePattern.print_parse": 2000,
+        "calls:pack_bitlist": 2000,
+        "calls:StreamerConfigurationAttr.print_parse": 1300,
+        "idempotence_checks": 12000,
     },
     "thorough": {
-        "programs": 360000,
-        "distinct_nontrivial": 10000,
-        "calls:canonicalize_expr": 180000,
-        "calls:pack_bitlist": 36000,
-        "calls:StridePattern.canonicalize": 36000,
-        "calls:StreamerConfigurationAttr.print_parse": 24000,
+        "programs": 900000,
+        "distinct_nontrivial": 60000,
+        "calls:canonicalize_expr": 195000,
+        "evals:canonicalize_expr": 27000000,
+        "calls:canonicalize_map": 39000,
+        "calls:AffineTransform.from_affine_map": 135000,
+        "calls:AffineTransform.to_affine_map": 60000,
+        "calls:AffineTransform.compose": 60000,
+        "calls:AffineTransform.eval": 9000000,
+        "calls:AccessPattern.canonicalize": 60000,
+        "calls:AccessPattern.inner_dims": 180000,
+        "calls:StridePattern.canonicalize": 60000,
+        "calls:StridePattern.print_parse": 60000,
+        "calls:pack_bitlist": 60000,
+        "calls:StreamerConfigurationAttr.print_parse": 39000,
+        "idempotence_checks": 360000,
     },
 }
 
@@ -204,7 +215,7 @@ def mon_canon_expr(case, res, rng=None):
         if cj != j:
             R.nontrivial(res, "expr", G.expr_shape(j))
             R.bump(res, "canonical_form_differs_from_input")
-        for o in G.ops_used(j):
+        for o in sorted(G.ops_used(j)):
             R.bump(res, f"expr_with:{o}")
         R.bump(res, f"expr_depth:{G.expr_depth(j)}")
     return out
@@ -544,7 +555,7 @@ def mon_stride_pattern(case, res, rng=None):
         text = str(sp)
         back = Parser(ctx(), text).parse_attribute()
     except Exception as x:
-        out.append(V("stride-pattern-text-roundtrip", f"ub={ub} ts={ts} ss={ss}: printed form cannot be parsed: {type(x).__name__}: {str(x)[:160]}", case))
+        out.append(V("stride-pattern-text-roundtrip", f"ub={ub} ts={ts} ss={ss}: printed form cannot be parsed: {type(x).__name__}: " + " ".join(str(x)[:160].split()), case))
         return out
     res["programs"] += 1
     res["compared"] += 1
@@ -682,7 +693,7 @@ def mon_streamer_text(case, res, rng=None):
         text = str(attr)
         back = Parser(ctx(), text).parse_attribute()
     except Exception as x:
-        out.append(V("streamer-config-text-roundtrip", f"{spec}: printed form cannot be parsed: {type(x).__name__}: {str(x)[:160]}", case, diff_fields=["unparsable"]))
+        out.append(V("streamer-config-text-roundtrip", f"{spec}: printed form cannot be parsed: {type(x).__name__}: " + " ".join(str(x)[:160].split()), case, diff_fields=["unparsable"]))
         return out
     res["programs"] += 1
     res["compared"] += 1
